@@ -61,7 +61,7 @@ func (d Dbus) Apply(opt *Option, profile string) (string, error) {
 	generatedDbus := r.String()
 	lenDbus := len(generatedDbus)
 	generatedDbus = generatedDbus[:lenDbus-1]
-	profile = strings.ReplaceAll(profile, opt.Raw, generatedDbus)
+	profile = replaceDirective(profile, opt.Raw, generatedDbus)
 	return profile, nil
 }
 
